@@ -147,6 +147,8 @@ def replay_fuzz(prop, path, workdir, idx):
         return "pass", "", ""
     if to:
         return "error", "", "timeout"
+    if "panic: HARNESS:" in open(logpath, errors="replace").read():
+        return "error", "", "harness error: " + tail(logpath, 6).replace("\n", " | ")
     return "fail", "", tail(logpath, 12).replace("\n", " | ")
 
 
@@ -372,7 +374,10 @@ def check(prop, tier):
                               open(os.path.join(outdir, "ev-%s-0.json" % u["test"]), "w"))
                     cdir = os.path.join(os.path.dirname(logpath), "testdata", "fuzz", u["test"])
                     crashers = sorted(os.listdir(cdir)) if os.path.isdir(cdir) else []
-                    if rc != 0 and crashers:
+                    if rc != 0 and crashers and re.search(r"panic: HARNESS:", text):
+                        # the harness could not even build / send the input: a defect of the machinery, never a finding
+                        inconclusive.append("%s: harness error on a fuzz input\n%s" % (u["test"], tail(logpath, 12)))
+                    elif rc != 0 and crashers:
                         for cf_ in crashers:
                             os.makedirs(os.path.join(OUTROOT, "replays", prop), exist_ok=True)
                             dst = os.path.join(OUTROOT, "replays", prop, "fuzz-%s-%s" % (u["test"], cf_))
